@@ -189,7 +189,12 @@ def judge (force : Nat) (st : St) (method path : Bytes) (hs : List (Bytes × Byt
         let tFill := (fills.map (·.time)).foldl max 0
         let stored := Spec.C08.storedOf (hdrOf (if 400 ≤ s.status ∧ s.status ≤ 404 then [(b!"Cache-Control", Spec.cacheable4xxCacheControl)] else s.headers)) tFill 0
         let c08bad := if Spec.C08.isFresh stored st.now force then [] else ["bad:C08:served-from-cache-although-not-fresh"]
-        add st1 (c05bad ++ c07bad ++ c08bad ++ c10bad) (c07cls ++ c10cls) "hit"
+        -- finding C09-e seen from here: a revalidation of this entry was answered with a status outside the
+        -- storage gate and WITHOUT a body; Close re-published the old file with Revalidated = now
+        let c09e := st.fetches.any fun f => f.key == key && f.origin.path == path && f.time ≥ tFill && !inGate f.origin.status &&
+          f.origin.body == [] && f.origin.readErrAt.isNone
+        let c08cls := if c09e then ["C09-e"] else []
+        add st1 (c05bad ++ c07bad ++ c08bad ++ c10bad) (c07cls ++ c10cls ++ c08cls) "hit"
 
 /-- the converse of C08: while the entry for this key is fresh, the origin is not contacted -/
 def converse (force : Nat) (st : St) (method path : Bytes) (hs : List (Bytes × Bytes)) (o : Obs) : List String :=
@@ -231,6 +236,6 @@ def hSysC : Handler := fun impl => do
   let label := "+".intercalate (st.labels.eraseDups.take 4)
   return { model := " ".intercalate impl, oracle := oracle, cls := cls, label := if label = "" then "-" else label }
 
-def handlers : List (String × Handler) := [ ("sysc", hSysC), ("kf.C05-a", hSysC) ]
+def handlers : List (String × Handler) := [ ("sysc", hSysC), ("kf.C05-a", hSysC), ("kf.C09-e.sysc", hSysC) ]
 
 end H.SysC
